@@ -68,6 +68,7 @@ static int parse_case(const std::string &doc,bool outcomes=true){ vf::eval();
 	if(strict){ n_strict++; if(!ok){ bad("json:reject-valid","a well-formed RFC 8259 document (unique keys, finite numbers, paired surrogates, depth<=512) is rejected",doc); return 0; } std::string why; if(!same(n,v,why)){ bad("json:tree-differs","accepted document yields a different tree: "+why,doc); return 1; } }
 	if(ok){ n_acc++; bool u=true; int d=check_tree(v,0,u); if(!u) bad("json:invalid-utf8-accepted","accepted document yields a string that is not valid UTF-8",doc); if(d>512) bad("json:depth","accepted document nests deeper than 512",doc); if(!strict) n_superset++; }
 	else { n_rej++; if(!(v==sent)) bad("json:target-modified","a failed parse modified the target value",doc); }
+	if(outcomes&&(ok||doc.size()>=3)){ static uint64_t sc=0; if(vf::sample_tick(sc,ok?211:40013)) vf::sample("{\"document\":"+vf::jstr(vf::vis(doc.substr(0,60)))+",\"strict_rfc8259\":"+(strict?"true":"false")+",\"accepted\":"+(ok?"true":"false")+"}",8); }
 	if(outcomes) vf::outcome(std::string(ok?"A":"R")+(strict?"s":"n")+":"+(ok?v.save().substr(0,24):"")); return ok?1:0; }
 static void flush_counts(){ vf::guard("accepted",n_acc); vf::guard("rejected",n_rej); vf::guard("strict_valid_documents",n_strict); vf::guard("accepted_superset",n_superset); n_acc=n_rej=n_strict=n_superset=0; }
 
